@@ -279,7 +279,7 @@ pub fn run_c05(ctx: &Ctx) -> Report {
         "fault_enumeration",
         "EXHAUSTIVE shape space: kind in {SEQUENCE, SET, CHOICE, ENUMERATED} x 0..R root members x {no marker, marker followed by every sequence of <= A additions over {component, [[c]], [[v: c]], [[c,c]], [[v: c,c]]} (CHOICE/ENUMERATED: components only)} x {top-level, nested once} x EXTENSIBILITY IMPLIED on/off (R=3,A=3 quick; R=4,A=4 thorough), a third of it also under EXPLICIT TAGS; plus random grammar-G sets to depth 4. Oracle: #[non_exhaustive] iff marker or EXTENSIBILITY IMPLIED; extension_addition exactly on the single additions; each [[ ]] group = one extension_addition_group member of type Option<struct> whose struct has exactly the grouped components in order (CHOICE: flattened additions); ENUMERATED additions marked. Non-trivial = warning-free Ok compilation judged; distinct by model hash.",
     );
-    rep.must_observe = vec!["extensibility_flags_compared".into(), "extension_groups_checked".into(), "members_compared".into()];
+    rep.must_observe = vec!["extensibility_flags_compared".into(), "extension_groups_checked".into(), "members_compared".into(), "extensibility_flags_compared[with COMPONENTS OF]".into()];
     rep.assumptions = vec!["reference model in oracle.rs".into()];
     if ctx.replay.is_some() {
         return cmodel::replay(ctx, "C05", &|_| g_opts_types(), &parse_c05_origin, rep);
@@ -298,7 +298,78 @@ pub fn run_c05(ctx: &Ctx) -> Report {
     });
     let rep = acc.into_inner();
     let n = ctx.pick(3_000u64, 60_000);
-    cmodel::run_random(ctx, "C05", 500, n, &g_opts_types(), rep)
+    let mut rep = cmodel::run_random(ctx, "C05", 500, n, &g_opts_types(), rep);
+    c05_components_of(&mut rep);
+    rep
+}
+
+/// Extensibility of types whose member list contains COMPONENTS OF clauses (grammar G does not spell them; how the copied
+/// members are *placed and marked* is C09's subject and a listed finding there). Judged here: `#[non_exhaustive]` iff the type
+/// itself has a marker (or the module says EXTENSIBILITY IMPLIED) - the lexer's first-extension index counts COMPONENTS OF
+/// clauses, the member list does not contain them, and everything that derives "extensible" from the two must agree.
+/// Exhaustive over {SEQUENCE, SET} x own members before 0..1 x clauses 1..2 x marker x additions 0..2 x {top-level, nested}
+/// x EXTENSIBILITY IMPLIED.
+fn c05_components_of(rep: &mut Report) {
+    use crate::comp;
+    for implied in [false, true] {
+        for kw in ["SEQUENCE", "SET"] {
+            for own in 0..2usize {
+                for clauses in 1..3usize {
+                    for marker in [false, true] {
+                        for adds in 0..3usize {
+                            if !marker && adds > 0 {
+                                continue;
+                            }
+                            for nested in [false, true] {
+                                let mut members: Vec<String> = vec![];
+                                if own == 1 {
+                                    members.push("fq0 NULL".into());
+                                }
+                                for c in 0..clauses {
+                                    members.push(format!("COMPONENTS OF Bq{c}"));
+                                }
+                                if marker {
+                                    members.push("...".into());
+                                }
+                                for a in 0..adds {
+                                    members.push(format!("aq{a} BOOLEAN"));
+                                }
+                                let body = format!("{kw} {{ {} }}", members.join(", "));
+                                let target = if nested { format!("{kw} {{ wq1 {body}, wq2 NULL }}") } else { body.clone() };
+                                let src = format!(
+                                    "Mq1 DEFINITIONS AUTOMATIC TAGS{} ::= BEGIN\nBq0 ::= {kw} {{ xq0 INTEGER, yq0 BOOLEAN }}\nBq1 ::= {kw} {{ xq1 OCTET STRING }}\nTq1 ::= {target}\nEND\n",
+                                    if implied { " EXTENSIBILITY IMPLIED" } else { "" }
+                                );
+                                let run = comp::rasn1(&src);
+                                rep.evaluations += 1;
+                                let comp::Outcome::Ok { generated, .. } = &run.out else {
+                                    rep.count("components_of_cases[not Ok]", 1);
+                                    continue;
+                                };
+                                let Ok(mods) = crate::proj::project(generated) else { continue };
+                                let item = if nested { "Tq1Wq1" } else { "Tq1" };
+                                let Some(it) = mods[0].find(item) else {
+                                    rep.count("components_of_cases[item absent]", 1);
+                                    continue;
+                                };
+                                rep.count("extensibility_flags_compared", 1);
+                                rep.count("extensibility_flags_compared[with COMPONENTS OF]", 1);
+                                rep.nontrivial.insert(hash_str(&src));
+                                let want = marker || implied;
+                                if it.attrs.non_exhaustive != want {
+                                    rep.violations.push(Violation {
+                                        sig: format!("c05|non-exhaustive-{}|components-of|kind={kw},marker={marker},implied={implied},toplevel={}", if want { "missing" } else { "unexpected" }, !nested),
+                                        what: format!("`{body}`: #[non_exhaustive] = {}, expected {want} ({} clauses, {adds} additions)", it.attrs.non_exhaustive, clauses),
+                                        replay: serde_json::json!({"origin": "components-of-extensibility", "asn1": src}),
+                                    });
+                                }
+                            }
+                        }
+                    }
+                }
+            }
+        }
+    }
 }
 
 // ------------------------------------------------------------------------------------------------ C03
